@@ -14,6 +14,15 @@ def gen(c):
             lines.append('os.prf kind=prf_short key=%s in=%s n=%d null_if_empty=%d' % (key16(), hx(pattern(rng, il)), ol, rng.randrange(2)))
             c.distinct([('short', il, ol)])
         p.case(lines, cost=1.0)
+    # PrfShort with declared lengths of 2^s + n bytes for every s up to 63: all above 16, all refused untouched
+    lines = []
+    for sft in list(range(4, 64)):
+        for n in (0, 1, 16):
+            lines.append('os.prf_short_big key=%s sin=%d nin=%d sout=-1 nout=%d' % (key16(), sft, n, rng.choice([0, 8, 16])))
+            lines.append('os.prf_short_big key=%s sin=-1 nin=%d sout=%d nout=%d' % (key16(), rng.choice([0, 8, 16]), sft, n))
+        c.distinct([('short_big', sft)])
+    lines += ['os.prf_short_big key=%s sin=-1 nin=%d sout=-1 nout=%d' % (key16(), a, b) for a, b in ((17, 16), (16, 17), (16, 16), (0, 0), (255, 1), (4096, 4096))]
+    p.case(lines, cost=4.0)
     mlens = len_classes(32) + [rng.randrange(0, 300) for _ in range(10 if th else 3)] + ([1024, 4096] if th else [])
     outs = [0, 1, 15, 16, 17, 31, 32, 33, 64] + ([500] if th else [])
     for ml in mlens:
